@@ -472,7 +472,7 @@ class ASL_API Var
 	{
 		switch (_type) {
 		case NUMBER: return _d == other;
-		case INT: return _i == other;
+		case INT: return (double)_i == (double)other; // not as floats: 16777217 is not 16777216.0f
 		case FLOAT: return _d == other;
 		default: return false;
 		}
